@@ -38,7 +38,8 @@ type RunRecord struct {
 	Sample     map[string]any `json:"sample,omitempty"`
 	Skipped    string         `json:"skipped,omitempty"`
 	SimTimeNs  int64          `json:"sim_time_ns,omitempty"`
-	Digest     string         `json:"digest,omitempty"` // determinism self-test: hash of everything observable
+	Digest     string         `json:"digest,omitempty"`
+	Notes      []string       `json:"notes,omitempty"` // determinism self-test: hash of everything observable
 }
 
 type RunCtx struct {
@@ -75,7 +76,14 @@ func (rc *RunCtx) Count(k string, n int) {
 	rc.Rec.Counters[k] += n
 }
 
-func (rc *RunCtx) Note(s string) { rc.digest = fnv64(s+"\n", rc.digest) }
+func (rc *RunCtx) Note(s string) {
+	rc.digest = fnv64(s+"\n", rc.digest)
+	if debugNotes {
+		rc.Rec.Notes = append(rc.Rec.Notes, s)
+	}
+}
+
+var debugNotes = os.Getenv("VERIF_DEBUG_NOTES") != ""
 
 func (rc *RunCtx) Violate(class, site, detail string, witness map[string]any, execIdx int, et *Tape) *Violation {
 	v := &Violation{
